@@ -1,7 +1,7 @@
 (* Prop_C03.v — property theorems for C03, and nothing else: each statement is closed
    by `exact <lemma>` and followed by Print Assumptions. *)
 From Dig Require Import Base Sig State Graph GraphProofs Register Resolve Run Spec Check
-  ErrTable Err ErrTableCheck P_Events.
+  ErrTable Err ErrTableCheck P_Events P_Frame P_Term P_Reg P_C03.
 
 (* ---- C03: registration, Scope and malformed calls never run user code ---- *)
 Theorem C03_registration_silent_partial : forall cfg b du h i o ob,
@@ -9,3 +9,15 @@ Theorem C03_registration_silent_partial : forall cfg b du h i o ob,
   (forall s p, o <> OInvoke s p) -> so_events ob = [].
 Proof. exact P_Events.C03_registration_silent. Qed.
 Print Assumptions C03_registration_silent_partial.
+
+(* ---- C03: the laziness checker accepts every model trace: registrations run
+        nothing, an Invoke runs only functions in the closure of its parameters,
+        every argument comes from an execution that completed earlier.
+        wf_gleaves / hist_kinds_ok / wf_keys: the key-kind conventions every
+        parsed signature satisfies ---- *)
+Theorem C03_holds : forall cfg b du h,
+  wf_scopes h = true -> P_Once.wf_fns h = true -> wf_keys h = true ->
+  hist_kinds_ok h = true -> wf_gleaves h = true ->
+  chk_C03 h (map obs_of (run cfg b du h)) = [].
+Proof. exact P_C03.chk_C03_ok. Qed.
+Print Assumptions C03_holds.
